@@ -148,6 +148,15 @@ func inductionSpan(ph *ssa.Phi) (first int64, base ssa.Value, off int64, ok bool
 		return
 	}
 	ba := affineOf(bo.Y)
+	if strings.HasPrefix(blk.Comment, "rangeint") && first == 0 && xa.c == 1 {
+		// rotated `for i := range N` whose body is this very block: the body has run with φ when `φ+1 < N` is tested
+		// for the next round, so the last value is N-1
+		off = ba.c
+		if bo.Op == token.LSS {
+			off--
+		}
+		return first, ba.base, off, true
+	}
 	off = ba.c - xa.c
 	if bo.Op == token.LSS {
 		off--
